@@ -245,7 +245,7 @@ def vw_case(draw):
         ns = [[i, draw(st.lists(vw_token(), max_size=3))] for i in present]
         rows.append({'label': label, 'extra': extra, 'ns': ns, 'tight': draw(st.integers(0, 7)) == 0,
                      'wide': draw(st.integers(0, 7)) == 0})
-    return {'map': nsmap, 'rows': rows}
+    return {'map': nsmap, 'rows': rows, 'target': draw(st.sampled_from([0, 0, 1, 2, 3]))}
 
 
 def render_vw(nsmap, row):
@@ -268,7 +268,9 @@ def oracle_vw(case, rec):
     if len(fw_col_mapping) != len(nsmap) or len({f for _, f in nsmap}) != len(nsmap):
         raise HarnessError('namespace ids / features must be unique')
     header = ['label'] + [f for _, f in nsmap]
-    args = stubs.make_args(data_source='ob-vw')
+    # the ranking target may be any column (--label_column): parsing must not depend on it
+    target = header[int(case.get('target', 0)) % len(header)]
+    args = stubs.make_args(data_source='ob-vw', label_column=target)
     nt = False
     labels = set()
     for row in case['rows']:
@@ -366,9 +368,9 @@ def oracle_nsmap(case, rec):
 @st.composite
 def arity_case(draw, fmt):
     no_tab = fmt == 'tsv'
-    ncols = draw(st.integers(1, 5))
+    ncols = draw(st.integers(1, 5)) if draw(st.integers(0, 11)) else draw(st.sampled_from([255, 256, 257, 300]))   # wide tables too
     rows = []
-    for _ in range(draw(st.integers(2, 8))):
+    for _ in range(draw(st.integers(2, 8)) if ncols < 100 else 2):
         cells = draw(row_strategy(ncols, no_tab))
         ok = draw(st.integers(0, 2)) != 0
         if not ok:
